@@ -53,10 +53,23 @@ def programs(thorough):
         for spec, it, ot in FN:
             if t in it:
                 yield from rec(prefix + [spec], c01.out_type(t, ot), maxlen)
-    for ch in rec([], "i", 3 if thorough else 2):
+    CORE = FN[:14]        # chains of three are built from the first catalogue only (the product of all 23 would take hours)
+
+    def rec3(prefix, t):
+        if len(prefix) == 3:
+            yield tuple(prefix)
+            return
+        for spec, it, ot in CORE:
+            if t in it and t != "none":
+                yield from rec3(prefix + [spec], c01.out_type(t, ot))
+    for ch in rec([], "i", 2):
         if any(sp[0] in USER_FN for sp in ch):
             progs.append(("chain", c01.prog_chain(ch), ("s",)))
-    if not thorough:
+    if thorough:
+        for ch in rec3([], "i"):
+            if any(sp[0] in USER_FN for sp in ch):
+                progs.append(("chain", c01.prog_chain(ch), ("s",)))
+    if True:
         # a failing node behind a one-to-many node (needs three nodes: make the pieces, split them, fail)
         for ch in ((("map", "pair"), ("flatten",), ("map", "inc")), (("map", "pair"), ("flatten",), ("acc", "add", 0, False)),
                    (("sw", 2, True), ("flatten",), ("sinkf", "record")), (("map", "pair"), ("flatten",), ("filter", "odd")),
